@@ -161,6 +161,16 @@ def run(ck, prog, ctx):
                       "DIFFER at line %s: %s where the other sites have %s" % (odd[0][0][1].line, list(odd[0][1]), list(common))), where=hb.where(odd[0][0][1].line if odd else sites_[0][1].line))
     ck.floor("ROLE", "comparison accessors", n_acc, 12)
 
+    # ---- the delta types' own answers: `None` means `nothing changed in this respect`, and a delta exists as soon as ONE respect changed
+    ck.rule("OPTIONAL", "an Option-valued accessor of HpoTermDelta / AnnotationDelta tests the field it hands out (its emptiness, or the equality of its two components) and answers None on the empty / equal side")
+    ck.rule("DECISION", "HpoTermDelta::new / AnnotationDelta::delta answer Some(..) as soon as one component test finds a difference: from the `differs` edge of every component test None is unreachable")
+    from engines import check_optional_accessors, check_change_decision
+    check_optional_accessors(ck, "OPTIONAL", prog, r"^src/ontology/comparison\.rs$", r"(HpoTermDelta|AnnotationDelta)$", floor=4)
+    for did_, lab_ in (("ontology::comparison::HpoTermDelta::new", "HpoTermDelta::new"), ("ontology::comparison::AnnotationDelta::delta", "AnnotationDelta::delta")):
+        db_ = prog.body(did_)
+        if db_ is not None:
+            check_change_decision(ck, "DECISION", prog, db_, lab_)
+
     # ------------------------------------------------------------------ HpoTermDelta::new
     hd = prog.body("ontology::comparison::HpoTermDelta::new")
     if ck.anchor("COVER", "HpoTermDelta::new", hd):
